@@ -548,7 +548,7 @@ def native_probe(tree, status=None):
             except subprocess.TimeoutExpired:
                 return None, b''
         # descriptors + stdin, while another command is running
-        rc, out = run('rule slow\n  command = sleep 1 && touch $out\nrule fds\n  command = sleep 0.3; ls -l /proc/$$$$/fd > fds.txt; readlink /proc/$$$$/fd/0 > stdin.txt; touch $out\n'
+        rc, out = run('rule slow\n  command = sleep 1 && touch $out\nrule fds\n  command = sleep 0.3; (ls -l /proc/$$$$/fd) > fds.txt; (readlink /proc/$$$$/fd/0) > stdin.txt; touch $out\n'
                       'build a: slow\nbuild b: fds\n', '-j 2 a b')
         if rc is None:
             bad['hang'] = 'n2 does not finish'
